@@ -1351,7 +1351,8 @@ def retf(info, a = ExprInt32(0)):
         myesp = esp
     int_cast = tab_uintsize[s]
     a = ExprInt(int_cast(int(a.arg)))
-    e.append(ExprAff(myesp, ExprOp('+', myesp, ExprOp('+', ExprInt(int_cast(s//8 + 2)), a))))
+    # (the selector is popped in a slot of the operand size)
+    e.append(ExprAff(myesp, ExprOp('+', myesp, ExprOp('+', ExprInt(int_cast(2*(s//8))), a))))
     e.append(set_eip(ExprMem(myesp, size = s)))
     e.append(ExprAff(cs, ExprMem(ExprOp('+', myesp, ExprInt(int_cast(s/8))),
                                  size=16)))
